@@ -127,7 +127,7 @@ func (ex *Exec) callStatic(fr *Frame, st *State, fn *ssa.Function, args []Val, b
 	if fn.Synthetic != "" && len(fn.Blocks) > 0 && (strings.HasPrefix(fn.Synthetic, "wrapper") || strings.HasPrefix(fn.Synthetic, "bound method") || strings.HasPrefix(fn.Synthetic, "thunk")) {
 		return ex.inline(fr, st, fn, args, bindings, pos)
 	}
-	if fc := ex.ld.contractFor(fn); fc != nil && fn != ex.top && !fc.Inline {
+	if fc := ex.ld.contractFor(fn); fc != nil && !fc.Inline {
 		if fc.Trusted {
 			if r := fc.Opts["trusted_reason"]; r != "" {
 				ex.trustedUsed["assumed contract: "+fnKey(fn)+" ("+r+")"] = true
